@@ -1,6 +1,7 @@
 package main
 
 import (
+	"os"
 	"fmt"
 	"go/types"
 	"strings"
@@ -109,6 +110,17 @@ func (g *Gen) ruleMatches(r *CallRule, c *ssa.CallCommon, prefix string) bool {
 	} else {
 		// dynamic call through a variable / field: match on its source text
 		names = append(names, g.textOf(c.Value), "."+lastSeg(g.textOf(c.Value)))
+	}
+	// generic callees are named with their type arguments (Assign[T]): also offer the bare name
+	for _, n := range names {
+		if strings.HasSuffix(n, "]") {
+			if i := strings.LastIndex(n, "["); i > 0 {
+				names = append(names, n[:i])
+			}
+		}
+	}
+	if os.Getenv("GVC_DEBUG_CALLS") != "" {
+		fmt.Fprintf(os.Stderr, "call names for rule %q: %q\n", pat, names)
 	}
 	for _, n := range names {
 		if n == pat {
